@@ -103,7 +103,12 @@ impl StartOpts {
         let root = format!("file://{}", ws.display());
         StartOpts {
             root_uri: Some(root.clone()),
-            capabilities: json!({}),
+            // Push diagnostics (no pull capability). `semanticTokens.refreshSupport` makes
+            // the server end its start-up background task with a
+            // `workspace/semanticTokens/refresh` request - the only observable sign that
+            // the task (which runs on another thread and would truncate diagnostics that
+            // the main thread computes at the same time) is over; `start` waits for it.
+            capabilities: json!({"workspace": {"semanticTokens": {"refreshSupport": true}}}),
             initialization_options: None,
             stderr_log: dir.join(format!("{tag}-{}.log", std::process::id())),
             workspace_folders: vec![root],
@@ -128,6 +133,8 @@ pub struct Server {
     pub workspace_updates: u64,
     /// "Indexed N workspace ST files" log messages seen (end of the workspace scan)
     pub index_reports: u64,
+    /// `workspace/semanticTokens/refresh` requests seen (last act of the start-up task)
+    pub token_refresh_requests: u64,
     stderr_log: PathBuf,
     pub capabilities: J,
 }
@@ -210,6 +217,7 @@ impl Server {
             other_notifications: 0,
             workspace_updates: 0,
             index_reports: 0,
+            token_refresh_requests: 0,
             stderr_log: opts.stderr_log.clone(),
             capabilities: J::Null,
         };
@@ -252,8 +260,28 @@ impl Server {
                     }
                 }
             }
-            // The background task has only a few instructions left after that message;
-            // two round trips on the main connection give it ample time to finish.
+            // After that message the task re-publishes the diagnostics of open documents (none
+            // yet) and, if the client supports it, asks the client to refresh semantic tokens:
+            // that request is its last act.
+            let announces_refresh = opts
+                .capabilities
+                .pointer("/workspace/semanticTokens/refreshSupport")
+                .and_then(J::as_bool)
+                .unwrap_or(false);
+            while announces_refresh && s.token_refresh_requests == 0 {
+                let left = deadline.saturating_duration_since(Instant::now());
+                match s.rx.recv_timeout(left) {
+                    Ok(msg) => {
+                        s.absorb(msg)?;
+                    }
+                    Err(RecvTimeoutError::Timeout) => {
+                        return Err(s.gone_or("the server's start-up task did not end with a semantic-tokens refresh request".into()));
+                    }
+                    Err(RecvTimeoutError::Disconnected) => {
+                        return Err(s.gone_or("server closed its stdout during start-up".into()));
+                    }
+                }
+            }
             for _ in 0..2 {
                 s.doc_request("textDocument/foldingRange", "file:///tpv-barrier/none.st")?;
             }
@@ -335,6 +363,9 @@ impl Server {
             (Some(method), Some(id)) => {
                 // server -> client request: answer at once
                 self.server_requests += 1;
+                if method == "workspace/semanticTokens/refresh" {
+                    self.token_refresh_requests += 1;
+                }
                 let result = if method == "workspace/configuration" {
                     let n = msg
                         .pointer("/params/items")
